@@ -44,6 +44,10 @@ theorem xml_reported_eq_sum_root (o : Opts) (orc : Oracle) (fp tp : List Nat) (f
     XScript.cost_emb, Script.relabel_cost, XScript.relabel_cost, XTree.tag, XTree.attrib, XTree.text, XTree.children]
   cases textEdit ftext ttext <;> simp <;> omega
 
+-- [audit] non-vacuity of `xml_reported_eq_sum_root`: `<a>x<b/></a>` and `<a/>` are unequal elements
+example : XTree.eq (.mk [97] (.dict []) (some [120]) [.mk [98] (.dict []) none []]) (.mk [97] (.dict []) none []) = false := by
+  simp [XTree.eq, eqText, strip, lstrip, isPySpace, Tree.eq, subKV]
+
 /-- the whole comparison of two documents -/
 theorem xml_reported_eq_sum_docs (o : Opts) (orc : Oracle) (f t : XDoc) : (diffXml o orc f t).CostOK :=
   xml_reported_eq_sum ..
